@@ -315,8 +315,7 @@ theorem mapBlock_no_nl {e : Txt × List (Txt × Txt)}
     simp only [mapRowLine, ljust, quote, spaces]
     refine not_mem_append (not_mem_append (not_mem_append (not_mem_append (by simp [L]) ?_) (by simp)) this.2) (by simp [L])
     refine not_mem_append (not_mem_append ?_ (by simp)) ?_
-    · simp only [List.mem_cons, List.mem_append, List.not_mem_nil, or_false, not_or]
-      exact ⟨by decide, this.1, by decide⟩
+    · simp [this.1]
     · simp [List.mem_replicate]
   · simp [L]
   · exact not_mem_append (not_mem_append (not_mem_append (not_mem_append (by simp [L]) hn) (by simp [L])) hd) (by simp)
@@ -324,9 +323,7 @@ theorem mapBlock_no_nl {e : Txt × List (Txt × Txt)}
 
 theorem extractMap_renderMap {rows : MapRows} (h : MapWF rows) : extractMap (renderMap rows) = some rows := by
   unfold extractMap renderMap
-  simp only [List.append_assoc, dropPrefix?_append]
-  rw [dropSuffix?_append]
-  simp only
+  rw [List.append_assoc, dropPrefix?_append, Option.bind_some, dropSuffix?_append, Option.bind_some]
   have hnl : ∀ l ∈ rows.flatMap mapBlock, '\n' ∉ l := by
     intro l hl
     obtain ⟨e, he, hle⟩ := List.mem_flatMap.1 hl
@@ -346,6 +343,559 @@ theorem extractMap_renderMap {rows : MapRows} (h : MapWF rows) : extractMap (ren
       rw [filterMap_mapBlock ⟨he.2.1, fun kv hkv => ⟨(he.2.2 kv hkv).1, (he.2.2 kv hkv).2.2.2⟩⟩,
         ih (fun x hx => h x (List.mem_cons_of_mem _ hx))]
   rw [hlines, htoks, foldl_blocks]
+  simp [mapFinish]
+
+
+/-! ## `mjcf_table.inc` -/
+
+def IsSep (c : Char) : Prop := c = ' ' ∨ c = '\n' ∨ c = ','
+
+theorem scan_out_sep {ws : Txt} (h : ∀ c ∈ ws, IsSep c) (r : Txt) : scan .out (ws ++ r) = scan .out r := by
+  induction ws with
+  | nil => rfl
+  | cons c ws ih =>
+    have hc : c = ' ' ∨ c = '\n' ∨ c = ',' := h c List.mem_cons_self
+    rw [List.cons_append, scan, if_pos hc]
+    exact ih (fun x hx => h x (List.mem_cons_of_mem _ hx))
+
+theorem scan_inEntry_sep {ws : Txt} (h : ∀ c ∈ ws, IsSep c) (acc : List Txt) (r : Txt) :
+    scan (.inEntry acc) (ws ++ r) = scan (.inEntry acc) r := by
+  induction ws with
+  | nil => rfl
+  | cons c ws ih =>
+    have hc : c = ' ' ∨ c = '\n' ∨ c = ',' := h c List.mem_cons_self
+    have h1 : c ≠ '"' := by rcases hc with rfl | rfl | rfl <;> decide
+    have h2 : c ≠ '}' := by rcases hc with rfl | rfl | rfl <;> decide
+    rw [List.cons_append, scan, if_neg h1, if_neg h2, if_pos hc]
+    exact ih (fun x hx => h x (List.mem_cons_of_mem _ hx))
+
+theorem scan_inStr {s : Txt} (h : '"' ∉ s) (acc : List Txt) (cur r : Txt) :
+    scan (.inStr acc cur) (s ++ '"' :: r) = scan (.inEntry (acc ++ [cur ++ s])) r := by
+  induction s generalizing cur with
+  | nil => simp [scan]
+  | cons c s ih =>
+    have hc : c ≠ '"' := fun e => h (e ▸ List.mem_cons_self)
+    rw [List.cons_append, scan, if_neg hc, ih (fun hx => h (List.mem_cons_of_mem _ hx))]
+    simp
+
+theorem scan_quote {s : Txt} (h : '"' ∉ s) (acc : List Txt) (r : Txt) :
+    scan (.inEntry acc) (quote s ++ r) = scan (.inEntry (acc ++ [s])) r := by
+  have : quote s ++ r = '"' :: (s ++ '"' :: r) := by simp [quote]
+  rw [this, scan, if_pos rfl, scan_inStr h]; simp
+
+theorem spaces_sep (n : Nat) : ∀ c ∈ spaces n, IsSep c := by
+  intro c hc
+  simp only [spaces, List.mem_replicate] at hc
+  exact Or.inl hc.2
+
+def consEntry (e : List Txt) (p : List (List Txt) × Txt) : List (List Txt) × Txt := (e :: p.1, p.2)
+
+theorem wrapGo_ne_nil (indent : Nat) (line : Txt) (ps : List Txt) : wrapGo indent line ps ≠ [] := by
+  induction ps generalizing line with
+  | nil => simp [wrapGo]
+  | cons p ps ih =>
+    simp only [wrapGo]
+    split
+    · simp
+    · exact ih _
+
+/-- Scanning the lines of a wrapped row, started after a prefix that leaves the scanner inside the entry. -/
+theorem scan_wrapGo (indent : Nat) (ps : List Txt) (hps : ∀ p ∈ ps, '"' ∉ p) (rest : Txt) :
+    ∀ (pre line : Txt) (acc : List Txt), (∀ X, scan .out (pre ++ (line ++ X)) = scan (.inEntry acc) X) →
+      scan .out (pre ++ (unlines (wrapGo indent line (ps.map quote)) ++ rest))
+        = (scan .out rest).map (consEntry (acc ++ ps)) := by
+  induction ps with
+  | nil =>
+    intro pre line acc h
+    have e : unlines (wrapGo indent line ([] : List Txt)) ++ rest = line ++ ('}' :: ([',', '\n'] ++ rest)) := by
+      simp [wrapGo, lit_rc]
+    rw [List.map_nil, e, h, scan, if_neg (by decide), if_pos rfl,
+      scan_out_sep (by intro c hc; simp only [List.mem_cons, List.not_mem_nil, or_false] at hc; rcases hc with rfl | rfl <;> simp [IsSep])]
+    simp only [List.append_nil]; rfl
+  | cons p ps ih =>
+    intro pre line acc h
+    have hp := hps p List.mem_cons_self
+    have hps' := fun x hx => hps x (List.mem_cons_of_mem _ hx)
+    simp only [List.map_cons, wrapGo]
+    split
+    · -- wrapped: the line ends with a comma, the part starts the next line
+      have e : pre ++ (unlines ((line ++ [',']) :: wrapGo indent (spaces (indent + 4) ++ quote p) (ps.map quote)) ++ rest)
+          = (pre ++ line ++ [',', '\n']) ++ (unlines (wrapGo indent (spaces (indent + 4) ++ quote p) (ps.map quote)) ++ rest) := by
+        simp
+      rw [e, ih hps' (pre ++ line ++ [',', '\n']) (spaces (indent + 4) ++ quote p) (acc ++ [p])]
+      · simp
+      · intro X
+        have e2 : pre ++ line ++ [',', '\n'] ++ (spaces (indent + 4) ++ quote p ++ X)
+            = pre ++ (line ++ (([',', '\n'] ++ spaces (indent + 4)) ++ (quote p ++ X))) := by simp
+        rw [e2, h, scan_inEntry_sep, scan_quote hp]
+        intro c hc
+        simp only [List.mem_append, List.mem_cons, List.not_mem_nil, or_false] at hc
+        rcases hc with (rfl | rfl) | hc
+        · simp [IsSep]
+        · simp [IsSep]
+        · exact spaces_sep _ c hc
+    · rw [ih hps' pre (line ++ L ", " ++ quote p) (acc ++ [p])]
+      · simp
+      · intro X
+        have e2 : pre ++ (line ++ L ", " ++ quote p ++ X) = pre ++ (line ++ ([',', ' '] ++ (quote p ++ X))) := by
+          simp [show L ", " = [',', ' '] from rfl]
+        rw [e2, h, scan_inEntry_sep, scan_quote hp]
+        intro c hc
+        simp only [List.mem_cons, List.not_mem_nil, or_false] at hc
+        rcases hc with rfl | rfl <;> simp [IsSep]
+
+theorem scan_wrapRow (indent : Nat) (parts : List Txt) (hne : parts ≠ []) (hps : ∀ p ∈ parts, '"' ∉ p) (rest : Txt) :
+    scan .out (unlines (wrapRow indent (parts.map quote)) ++ rest) = (scan .out rest).map (consEntry parts) := by
+  cases parts with
+  | nil => exact absurd rfl hne
+  | cons p ps =>
+    have hp := hps p List.mem_cons_self
+    have := scan_wrapGo indent ps (fun x hx => hps x (List.mem_cons_of_mem _ hx)) rest [] (spaces indent ++ '{' :: quote p) [p]
+      (by
+        intro X
+        have e : ([] : Txt) ++ (spaces indent ++ '{' :: quote p ++ X) = spaces indent ++ ('{' :: (quote p ++ X)) := by simp
+        rw [e, scan_out_sep (spaces_sep _), scan, if_neg (by decide), if_pos rfl, scan_quote hp]; simp)
+    simpa [wrapRow] using this
+
+/-- Lexical well-formedness of the table items: no double quote in a name (identifiers, cardinalities), rows are
+    non-empty, constraint specs are single-line. -/
+def TableWF (items : List TItem) : Prop :=
+  ∀ it ∈ items, match it with
+    | .row _ parts cons => parts ≠ [] ∧ (∀ p ∈ parts, '"' ∉ p) ∧ ∀ c ∈ cons, c.1 ≠ '\n' ∧ '\n' ∉ c.2
+    | _ => True
+
+theorem scan_items (items : List TItem) (h : TableWF items) (rest : Txt) :
+    scan .out (unlines (items.flatMap itemLines) ++ rest)
+      = (scan .out rest).map (fun p => (itemEntries items ++ p.1, p.2)) := by
+  induction items with
+  | nil => simp [itemEntries]
+  | cons it items ih =>
+    have hit := h it List.mem_cons_self
+    have ih' := ih (fun x hx => h x (List.mem_cons_of_mem _ hx))
+    rw [List.flatMap_cons, unlines_append, List.append_assoc]
+    cases it with
+    | row i parts cons =>
+      simp only at hit
+      rw [show itemLines (.row i parts cons) = wrapRow i (parts.map quote) from rfl,
+        scan_wrapRow i parts hit.1 hit.2.1, ih']
+      simp [itemEntries, consEntry, Option.map_map, Function.comp_def]
+    | opn i =>
+      have e : itemLines (.opn i) = wrapRow i ([['<']].map quote) := by
+        simp [itemLines, wrapRow, wrapGo, quote, show L "{\"<\"}," = ['{', '"', '<', '"', '}', ','] from rfl, lit_rc]
+      rw [e, scan_wrapRow i [['<']] (by simp) (by simp), ih']
+      simp [itemEntries, consEntry, Option.map_map, Function.comp_def]
+    | cls i =>
+      have e : itemLines (.cls i) = wrapRow i ([['>']].map quote) := by
+        simp [itemLines, wrapRow, wrapGo, quote, show L "{\">\"}," = ['{', '"', '>', '"', '}', ','] from rfl, lit_rc]
+      rw [e, scan_wrapRow i [['>']] (by simp) (by simp), ih']
+      simp [itemEntries, consEntry, Option.map_map, Function.comp_def]
+    | blank =>
+      have e : unlines (itemLines .blank) ++ (unlines (items.flatMap itemLines) ++ rest)
+          = ['\n'] ++ (unlines (items.flatMap itemLines) ++ rest) := by simp [itemLines]
+      rw [e, scan_out_sep (by intro c hc; simp at hc; simp [hc, IsSep]), ih']
+      simp [itemEntries]
+
+theorem parseCon_conLine (c : Nat × Char × Txt) : parseCon (conLine c) = some c := by
+  obtain ⟨n, k, spec⟩ := c
+  unfold parseCon conLine
+  simp only [List.append_assoc, dropPrefix?_append]
+  have hd : ',' ∉ natStr n := not_mem_natStr (by decide)
+  have e : natStr n ++ (L ", '" ++ ([k] ++ (L "', " ++ (quote spec ++ L "},"))))
+      = natStr n ++ ',' :: ([' ', '\''] ++ (k :: (L "', \"" ++ (spec ++ L "\"},")))) := by
+    simp [quote, show L ", '" = [',', ' ', '\''] from rfl, show L "', " = ['\'', ',', ' '] from rfl,
+      show L "', \"" = ['\'', ',', ' ', '"'] from rfl, show L "\"}," = ['"', '}', ','] from rfl, lit_rc]
+  rw [e, takeWhile_ne_append hd, dropWhile_ne_append hd, parseNat?_natStr]
+  have e2 : ',' :: ([' ', '\''] ++ (k :: (L "', \"" ++ (spec ++ L "\"},")))) = L ", '" ++ (k :: (L "', \"" ++ (spec ++ L "\"},"))) := by
+    simp [show L ", '" = [',', ' ', '\''] from rfl]
+  rw [e2, dropPrefix?_append]
+  simp only [dropPrefix?_append, dropSuffix?_append, Option.map_some]
+
+theorem allSome_map_some {α : Type} (l : List α) : allSome (l.map some) = some l := by
+  induction l with
+  | nil => rfl
+  | cons x l ih => simp [allSome, ih]
+
+theorem mem_conRows {x : Nat × Char × Txt} {n : Nat} {items : List TItem} (h : x ∈ conRows n items) :
+    ∃ i parts cons, TItem.row i parts cons ∈ items ∧ (x.2.1, x.2.2) ∈ cons := by
+  induction items generalizing n with
+  | nil => simp [conRows] at h
+  | cons it items ih =>
+    cases it with
+    | row i parts cons =>
+      simp only [conRows, List.mem_append, List.mem_map] at h
+      rcases h with ⟨c, hc, rfl⟩ | h
+      · exact ⟨i, parts, cons, List.mem_cons_self, by simpa using hc⟩
+      · obtain ⟨i', p', c', hm, hx⟩ := ih h
+        exact ⟨i', p', c', List.mem_cons_of_mem _ hm, hx⟩
+    | opn i =>
+      simp only [conRows] at h
+      obtain ⟨i', p', c', hm, hx⟩ := ih h
+      exact ⟨i', p', c', List.mem_cons_of_mem _ hm, hx⟩
+    | cls i =>
+      simp only [conRows] at h
+      obtain ⟨i', p', c', hm, hx⟩ := ih h
+      exact ⟨i', p', c', List.mem_cons_of_mem _ hm, hx⟩
+    | blank =>
+      simp only [conRows] at h
+      obtain ⟨i', p', c', hm, hx⟩ := ih h
+      exact ⟨i', p', c', List.mem_cons_of_mem _ hm, hx⟩
+
+theorem conLine_no_nl {c : Nat × Char × Txt} (h1 : c.2.1 ≠ '\n') (h2 : '\n' ∉ c.2.2) : '\n' ∉ conLine c := by
+  obtain ⟨n, k, spec⟩ := c
+  simp only at h1 h2
+  unfold conLine
+  have hd : '\n' ∉ natStr n := not_mem_natStr (by decide)
+  refine not_mem_append (not_mem_append (not_mem_append (not_mem_append (not_mem_append (not_mem_append (by simp [L]) hd) (by simp [L])) ?_) (by simp [L])) ?_) (by simp [L])
+  · simpa using fun e => h1 e.symm
+  · simp [quote, h2]
+
+theorem conLine_ne_nil (c : Nat × Char × Txt) : conLine c ≠ [] := by
+  simp [conLine, lit_row3]
+
+theorem extractTable_renderTable {items : List TItem} (h : TableWF items) (hne : items.flatMap itemLines ≠ []) :
+    extractTable (renderTable items) = some (tableFacts items) := by
+  unfold extractTable renderTable
+  have e1 : tableHeader ++ tableOpen ++ joinNL (items.flatMap itemLines) ++ tableMid
+        ++ joinNL ((conRows 0 items).map conLine) ++ tableEnd
+      = (tableHeader ++ tableOpen) ++ (unlines (items.flatMap itemLines)
+        ++ (('}' :: tableMidRest) ++ (joinNL ((conRows 0 items).map conLine) ++ tableEnd))) := by
+    rw [← joinNL_append_nl hne]
+    simp [tableMid]
+  rw [e1, dropPrefix?_append, Option.bind_some, scan_items items h]
+  have e2 : scan .out ('}' :: tableMidRest ++ (joinNL ((conRows 0 items).map conLine) ++ tableEnd))
+      = some ([], '}' :: tableMidRest ++ (joinNL ((conRows 0 items).map conLine) ++ tableEnd)) := by
+    simp [scan]
+  rw [e2]
+  simp only [Option.map_some, Option.bind_some, List.append_nil, dropPrefix?_append, dropSuffix?_append]
+  have hnl : ∀ l ∈ (conRows 0 items).map conLine, '\n' ∉ l := by
+    intro l hl
+    obtain ⟨c, hc, rfl⟩ := List.mem_map.1 hl
+    obtain ⟨i, parts, cons, hm, hx⟩ := mem_conRows hc
+    have := h _ hm
+    simp only at this
+    have := this.2.2 _ hx
+    exact conLine_no_nl this.1 this.2
+  have hl : (linesOf (joinNL ((conRows 0 items).map conLine))).filter (· ≠ []) = (conRows 0 items).map conLine := by
+    by_cases hc : (conRows 0 items).map conLine = []
+    · rw [hc]; simp [joinNL, joinWith, linesOf, splitCh]
+    · rw [linesOf_joinNL hnl hc, List.filter_eq_self]
+      intro l hl
+      obtain ⟨c, _, rfl⟩ := List.mem_map.1 hl
+      simpa using conLine_ne_nil c
+  rw [hl, List.map_map]
+  have : parseCon ∘ conLine = some := funext parseCon_conLine
+  rw [this, allSome_map_some]
+  rfl
+
+
+/-! ## `mjcf_default_table.inc` -/
+
+theorem field_spec {c : Char} {f : Txt} (hc : c ∉ f) (l' rest : Txt) :
+    field c (c :: l') (f ++ ((c :: l') ++ rest)) = some (f, rest) := by
+  unfold field
+  rw [List.cons_append, takeWhile_ne_append hc, dropWhile_ne_append hc]
+  rw [show c :: (l' ++ rest) = (c :: l') ++ rest from rfl, dropPrefix?_append]
+  rfl
+
+theorem splitCS_join {vs : List Txt} (hne : vs ≠ []) (h : ∀ v ∈ vs, ',' ∉ v) : splitCS (joinWith (L ", ") vs) = vs := by
+  have single : ∀ v : Txt, ',' ∉ v → splitCS v = [v] := by
+    intro v hv
+    induction v with
+    | nil => rfl
+    | cons a v ih =>
+      have ha : a ≠ ',' := fun e => hv (e ▸ List.mem_cons_self)
+      have := ih (fun hx => hv (List.mem_cons_of_mem _ hx))
+      cases v with
+      | nil => simp [splitCS, ha]
+      | cons b v => rw [splitCS, this]; exact fun _ e _ => ha e
+  have step : ∀ (v r : Txt), ',' ∉ v → splitCS (v ++ (',' :: ' ' :: r)) = v :: splitCS r := by
+    intro v r hv
+    induction v with
+    | nil => simp [splitCS]
+    | cons a v ih =>
+      have ha : a ≠ ',' := fun e => hv (e ▸ List.mem_cons_self)
+      have := ih (fun hx => hv (List.mem_cons_of_mem _ hx))
+      rw [List.cons_append, splitCS, this]
+      exact fun _ e _ => ha e
+  induction vs with
+  | nil => exact absurd rfl hne
+  | cons v vs ih =>
+    have hv := h v List.mem_cons_self
+    cases vs with
+    | nil => simpa [joinWith] using single v hv
+    | cons w ws =>
+      have := ih (by simp) (fun x hx => h x (List.mem_cons_of_mem _ hx))
+      have e : L ", " = [',', ' '] := rfl
+      rw [e] at this ⊢
+      rw [joinWith_cons_cons]
+      simp only [List.append_assoc, List.cons_append, List.nil_append]
+      rw [step v _ hv, this]
+
+/-- Lexical well-formedness of a default-table row (identifiers, C type dimensions, `repr` / `(double)CONST` values). -/
+def DRowWF (r : DRow) : Prop :=
+  '"' ∉ r.attr ∧ '\n' ∉ r.attr ∧ ',' ∉ r.spec ∧ '\n' ∉ r.spec ∧ ')' ∉ r.path ∧ '\n' ∉ r.path ∧
+  ',' ∉ r.len ∧ '\n' ∉ r.len ∧ ∀ v ∈ r.values, ',' ∉ v ∧ '}' ∉ v ∧ '\n' ∉ v
+
+theorem litO : L "\", (int)offsetof(" = '"' :: L ", (int)offsetof(" := rfl
+theorem litC : L ", " = ',' :: [' '] := rfl
+theorem litP : L "), " = ')' :: L ", " := rfl
+theorem litB : L ", {" = ',' :: L " {" := rfl
+theorem litE : L "}}," = '}' :: L "}," := rfl
+
+def dVals (r : DRow) : Txt := if r.values.isEmpty then ['0'] else joinWith (L ", ") r.values
+def dUnset (r : DRow) : Txt := if r.unset then ['1'] else ['0']
+
+theorem dRowLine_eq (r : DRow) :
+    dRowLine r = L "  {\"" ++ (r.attr ++ (('"' :: L ", (int)offsetof(") ++ (r.spec ++ ((',' :: [' ']) ++ (r.path ++ ((')' :: L ", ")
+      ++ (natStr r.kind ++ ((',' :: [' ']) ++ (r.len ++ ((',' :: [' ']) ++ (natStr r.ndecl ++ ((',' :: [' '])
+      ++ (dUnset r ++ ((',' :: L " {") ++ (dVals r ++ (('}' :: L "},") ++ [])))))))))))))))) := by
+  simp only [dRowLine, dVals, dUnset, quote, lit_row, lit_row3, litC, litP, litB, litE, List.cons_append, List.nil_append,
+    List.append_assoc, List.append_nil]
+
+theorem not_mem_joinWith {c : Char} {sep : Txt} {vs : List Txt} (hs : c ∉ sep) (h : ∀ v ∈ vs, c ∉ v) :
+    c ∉ joinWith sep vs := by
+  induction vs with
+  | nil => simp [joinWith]
+  | cons v vs ih =>
+    cases vs with
+    | nil => simpa [joinWith] using h v List.mem_cons_self
+    | cons w ws =>
+      rw [joinWith_cons_cons]
+      exact not_mem_append (not_mem_append (h v List.mem_cons_self) hs) (ih (fun x hx => h x (List.mem_cons_of_mem _ hx)))
+
+theorem parseDRow_dRowLine {r : DRow} (h : DRowWF r) : parseDRow (dRowLine r) = some r := by
+  obtain ⟨h1, _, h2, _, h3, _, h4, _, h5⟩ := h
+  have hk : ',' ∉ natStr r.kind := not_mem_natStr (by decide)
+  have hn : ',' ∉ natStr r.ndecl := not_mem_natStr (by decide)
+  have hu : ',' ∉ dUnset r := by unfold dUnset; split <;> simp
+  have hv : '}' ∉ dVals r := by
+    unfold dVals; split
+    · simp
+    · exact not_mem_joinWith (by simp [litC]) (fun v hv => (h5 v hv).2.1)
+  rw [dRowLine_eq, parseDRow, dropPrefix?_append, Option.bind_some]
+  simp only [litO, litC, litP, litB, litE]
+  rw [field_spec h1, Option.bind_some]; simp only
+  rw [field_spec h2, Option.bind_some]; simp only
+  rw [field_spec h3, Option.bind_some]; simp only
+  rw [field_spec hk, Option.bind_some]; simp only
+  rw [field_spec h4, Option.bind_some]; simp only
+  rw [field_spec hn, Option.bind_some]; simp only
+  rw [field_spec hu, Option.bind_some]; simp only
+  rw [field_spec hv, Option.bind_some]; simp only
+  rw [parseNat?_natStr, Option.bind_some, parseNat?_natStr, Option.bind_some]
+  obtain ⟨attr, spec, path, kind, len, unset, values⟩ := r
+  simp only [DRow.ndecl, dVals, dUnset] at *
+  cases values with
+  | nil => cases unset <;> simp
+  | cons v vs =>
+    have hs := splitCS_join (vs := v :: vs) (by simp) (fun x hx => (h5 x hx).1)
+    cases unset <;> simp [hs]
+
+theorem litI : L "\", " = '"' :: L ", " := rfl
+theorem litS : L ", (int)(sizeof(" = ',' :: L " (int)(sizeof(" := rfl
+
+theorem parseIdx_dIndexLine {key : Txt} (h1 : '"' ∉ rootOf key) (h2 : ',' ∉ arrayOf key) :
+    parseIdx (dIndexLine key) = some (rootOf key, arrayOf key) := by
+  have e : dIndexLine key = L "  {\"" ++ (rootOf key ++ (('"' :: L ", ") ++ (arrayOf key ++ ((',' :: L " (int)(sizeof(")
+      ++ (arrayOf key ++ L ") / sizeof(" ++ arrayOf key ++ L "[0]))},"))))) := by
+    simp only [dIndexLine, quote, lit_row, lit_row3, litC, litS, List.cons_append, List.nil_append, List.append_assoc]
+  rw [e, parseIdx, dropPrefix?_append, Option.bind_some]
+  simp only [litI, litS]
+  rw [field_spec h1, Option.bind_some]; simp only
+  rw [field_spec h2, Option.bind_some]; simp only
   simp
+
+theorem parseDRow_close : parseDRow (L "};") = none := by
+  rw [parseDRow, lit_row, lit_close, dropPrefix?_head_ne _ _ (by decide)]; rfl
+
+theorem parseIdx_close : parseIdx (L "};") = none := by
+  rw [parseIdx, lit_row, lit_close, dropPrefix?_head_ne _ _ (by decide)]; rfl
+
+theorem litEntry : L "static const mjXDefaultEntry " = 's' :: (L "tatic const mjXDefault" ++ ('E' :: L "ntry ")) := rfl
+theorem litIdxStart : dIdxStart = 's' :: (L "tatic const mjXDefault" ++ ('T' :: L "able kDefaultTables[] = {")) := rfl
+
+def S0 (done : List (Txt × List DRow)) : Option DAcc := some ⟨done, none, none, false⟩
+
+theorem dStep_start (done : List (Txt × List DRow)) (arr : Txt) :
+    dStep (S0 done) (L "static const mjXDefaultEntry " ++ (arr ++ L "[] = {")) = some ⟨done, some (arr, []), none, false⟩ := by
+  simp only [dStep, S0, Option.bind_some, Bool.false_eq_true, if_false, dropPrefix?_append,
+    dropSuffix?_append, Option.map_some]
+
+theorem dStep_row (done : List (Txt × List DRow)) (arr : Txt) (rows : List DRow) {r : DRow} (h : DRowWF r) :
+    dStep (some ⟨done, some (arr, rows), none, false⟩) (dRowLine r) = some ⟨done, some (arr, rows ++ [r]), none, false⟩ := by
+  simp only [dStep, Option.bind_some, Bool.false_eq_true, if_false, parseDRow_dRowLine h]
+
+theorem dStep_close (done : List (Txt × List DRow)) (arr : Txt) (rows : List DRow) :
+    dStep (some ⟨done, some (arr, rows), none, false⟩) (L "};") = S0 (done ++ [(arr, rows)]) := by
+  simp only [dStep, Option.bind_some, Bool.false_eq_true, if_false, parseDRow_close, if_true, S0]
+
+theorem dStep_blank (done : List (Txt × List DRow)) : dStep (S0 done) [] = S0 done := by
+  simp only [dStep, S0, Option.bind_some, Bool.false_eq_true, if_false, litEntry, dropPrefix?_cons_nil, if_true]
+
+theorem dStep_idxStart (done : List (Txt × List DRow)) : dStep (S0 done) dIdxStart = some ⟨done, none, some [], false⟩ := by
+  have e : dropPrefix? (L "static const mjXDefaultEntry ") dIdxStart = none := by
+    rw [litEntry, litIdxStart]
+    simp only [dropPrefix?, if_true, dropPrefix?_common]
+    exact dropPrefix?_head_ne _ _ (by decide)
+  have ne : dIdxStart ≠ [] := by rw [litIdxStart]; simp
+  simp only [dStep, S0, Option.bind_some, Bool.false_eq_true, if_false, e, ne, if_true]
+
+theorem dStep_idxRow (done : List (Txt × List DRow)) (rows : List (Txt × Txt)) {key : Txt}
+    (h1 : '"' ∉ rootOf key) (h2 : ',' ∉ arrayOf key) :
+    dStep (some ⟨done, none, some rows, false⟩) (dIndexLine key)
+      = some ⟨done, none, some (rows ++ [(rootOf key, arrayOf key)]), false⟩ := by
+  simp only [dStep, Option.bind_some, Bool.false_eq_true, if_false, parseIdx_dIndexLine h1 h2]
+
+theorem dStep_idxClose (done : List (Txt × List DRow)) (rows : List (Txt × Txt)) :
+    dStep (some ⟨done, none, some rows, false⟩) (L "};") = some ⟨done, none, some rows, true⟩ := by
+  simp only [dStep, Option.bind_some, Bool.false_eq_true, if_false, parseIdx_close, if_true]
+
+theorem dStep_tail (a : DAcc) (h : a.closed = true) {l : Txt} (hl : l ∈ dTailLines) : dStep (some a) l = some a := by
+  simp only [dStep, Option.bind_some, h, if_true, hl]
+
+/-- Well-formedness of the (sorted) default tables: keys are `Struct` or `Struct.sub` identifiers, rows are well-formed. -/
+def DefaultWF (st : List (Txt × List DRow)) : Prop :=
+  ∀ e ∈ st, '\n' ∉ e.1 ∧ ',' ∉ e.1 ∧ '"' ∉ e.1 ∧ ∀ r ∈ e.2, DRowWF r
+
+theorem foldl_dRows (done : List (Txt × List DRow)) (arr : Txt) (acc rows : List DRow) (h : ∀ r ∈ rows, DRowWF r)
+    (rest : List Txt) :
+    (rows.map dRowLine ++ rest).foldl dStep (some ⟨done, some (arr, acc), none, false⟩)
+      = rest.foldl dStep (some ⟨done, some (arr, acc ++ rows), none, false⟩) := by
+  induction rows generalizing acc with
+  | nil => simp
+  | cons r rows ih =>
+    rw [List.map_cons, List.cons_append, List.foldl_cons, dStep_row _ _ _ (h r List.mem_cons_self),
+      ih _ (fun x hx => h x (List.mem_cons_of_mem _ hx))]
+    simp
+
+theorem foldl_dTable (done : List (Txt × List DRow)) (e : Txt × List DRow) (h : ∀ r ∈ e.2, DRowWF r) (rest : List Txt) :
+    (dTableLines e ++ rest).foldl dStep (S0 done) = rest.foldl dStep (S0 (done ++ [(arrayOf e.1, e.2)])) := by
+  obtain ⟨k, rows⟩ := e
+  simp only [dTableLines, List.cons_append, List.nil_append, List.append_assoc, List.foldl_cons]
+  rw [dStep_start, foldl_dRows _ _ _ _ h]
+  simp only [List.cons_append, List.nil_append, List.foldl_cons, dStep_close, dStep_blank]
+
+theorem foldl_dTables (done st : List (Txt × List DRow)) (h : ∀ e ∈ st, ∀ r ∈ e.2, DRowWF r) (rest : List Txt) :
+    (st.flatMap dTableLines ++ rest).foldl dStep (S0 done)
+      = rest.foldl dStep (S0 (done ++ st.map fun e => (arrayOf e.1, e.2))) := by
+  induction st generalizing done with
+  | nil => simp
+  | cons e st ih =>
+    rw [List.flatMap_cons, List.append_assoc, foldl_dTable _ _ (h e List.mem_cons_self),
+      ih _ (fun x hx => h x (List.mem_cons_of_mem _ hx))]
+    simp
+
+theorem foldl_dIdx (done : List (Txt × List DRow)) (acc : List (Txt × Txt)) (keys : List Txt)
+    (h : ∀ k ∈ keys, '"' ∉ rootOf k ∧ ',' ∉ arrayOf k) (rest : List Txt) :
+    (keys.map dIndexLine ++ rest).foldl dStep (some ⟨done, none, some acc, false⟩)
+      = rest.foldl dStep (some ⟨done, none, some (acc ++ keys.map fun k => (rootOf k, arrayOf k)), false⟩) := by
+  induction keys generalizing acc with
+  | nil => simp
+  | cons k keys ih =>
+    have hk := h k List.mem_cons_self
+    rw [List.map_cons, List.cons_append, List.foldl_cons, dStep_idxRow _ _ hk.1 hk.2,
+      ih _ (fun x hx => h x (List.mem_cons_of_mem _ hx))]
+    simp
+
+theorem zipIdx_maps (st : List (Txt × List DRow)) :
+    zipIdx (st.map fun e => (arrayOf e.1, e.2)) (st.map fun e => (rootOf e.1, arrayOf e.1))
+      = some (st.map fun e => (arrayOf e.1, rootOf e.1, e.2)) := by
+  induction st with
+  | nil => rfl
+  | cons e st ih => simp [zipIdx, ih]
+
+theorem not_mem_arrayOf {c : Char} {k : Txt} (hc : c ∉ k) (h1 : c ≠ '_') (h2 : c ∉ L "kDefaults_") : c ∉ arrayOf k := by
+  unfold arrayOf dotsToUnderscore
+  refine not_mem_append h2 ?_
+  intro hm
+  obtain ⟨x, hx, hxe⟩ := List.mem_map.1 hm
+  by_cases hd : x = '.'
+  · simp [hd] at hxe; exact h1 hxe.symm
+  · simp [hd] at hxe; exact hc (hxe ▸ hx)
+
+theorem not_mem_rootOf {c : Char} {k : Txt} (hc : c ∉ k) : c ∉ rootOf k := by
+  unfold rootOf
+  exact fun hm => hc ((List.takeWhile_sublist _).mem hm)
+
+theorem dRowLine_no_nl {r : DRow} (h : DRowWF r) : '\n' ∉ dRowLine r := by
+  obtain ⟨_, h1, _, h2, _, h3, _, h4, h5⟩ := h
+  have hk : '\n' ∉ natStr r.kind := not_mem_natStr (by decide)
+  have hn : '\n' ∉ natStr r.ndecl := not_mem_natStr (by decide)
+  have hu : '\n' ∉ dUnset r := by unfold dUnset; split <;> simp
+  have hv : '\n' ∉ dVals r := by
+    unfold dVals; split
+    · simp
+    · exact not_mem_joinWith (by simp [litC]) (fun v hv => (h5 v hv).2.2)
+  rw [dRowLine_eq]
+  refine not_mem_append (by simp [L]) (not_mem_append h1 (not_mem_append (by simp [L]) (not_mem_append h2
+    (not_mem_append (by simp) (not_mem_append h3 (not_mem_append (by simp [L]) (not_mem_append hk (not_mem_append (by simp)
+    (not_mem_append h4 (not_mem_append (by simp) (not_mem_append hn (not_mem_append (by simp) (not_mem_append hu
+    (not_mem_append (by simp [L]) (not_mem_append hv (by simp [L]))))))))))))))))
+
+theorem dTableLines_no_nl {e : Txt × List DRow} (hk : '\n' ∉ e.1) (h : ∀ r ∈ e.2, DRowWF r) :
+    ∀ l ∈ dTableLines e, '\n' ∉ l := by
+  obtain ⟨k, rows⟩ := e
+  intro l hl
+  simp only [dTableLines, List.cons_append, List.nil_append, List.mem_cons, List.mem_append, List.mem_map,
+    List.not_mem_nil, or_false] at hl
+  rcases hl with rfl | ⟨r, hr, rfl⟩ | rfl | rfl
+  · exact not_mem_append (not_mem_append (by simp [L]) (not_mem_arrayOf hk (by decide) (by simp [L]))) (by simp [L])
+  · exact dRowLine_no_nl (h r hr)
+  · simp [L]
+  · simp
+
+theorem dIndexLine_no_nl {k : Txt} (hk : '\n' ∉ k) : '\n' ∉ dIndexLine k := by
+  have ha := not_mem_arrayOf hk (by decide) (by simp [L])
+  unfold dIndexLine
+  refine not_mem_append (not_mem_append (not_mem_append (not_mem_append (not_mem_append (not_mem_append (not_mem_append
+    (not_mem_append (by simp [L]) ?_) (by simp [L])) ha) (by simp [L])) ha) (by simp [L])) ha) (by simp [L])
+  simp [quote, not_mem_rootOf hk]
+
+theorem extractDefault_renderDefault {ts : List (Txt × List DRow)} (h : DefaultWF (sortedTables ts)) :
+    extractDefault (renderDefault ts) = some (defaultFacts ts) := by
+  unfold extractDefault renderDefault defaultFacts
+  generalize sortedTables ts = st at h ⊢
+  simp only
+  have tailMem : ∀ l ∈ [L "};", L "static const int kDefaultTablesN = (int)(sizeof(kDefaultTables) / sizeof(kDefaultTables[0]));",
+      L "// clang-format on"], '\n' ∉ l := by
+    intro l hl
+    simp only [List.mem_cons, List.not_mem_nil, or_false] at hl
+    rcases hl with rfl | rfl | rfl <;> simp [L]
+  let body : List Txt := st.flatMap dTableLines ++ ([dIdxStart] ++ (st.map (fun e => dIndexLine e.1) ++
+    [L "};", L "static const int kDefaultTablesN = (int)(sizeof(kDefaultTables) / sizeof(kDefaultTables[0]));",
+     L "// clang-format on"]))
+  have e1 : joinNL ([defaultHeader] ++ st.flatMap dTableLines ++ [L "static const mjXDefaultTable kDefaultTables[] = {"]
+        ++ st.map (fun e => dIndexLine e.1) ++ [L "};",
+          L "static const int kDefaultTablesN = (int)(sizeof(kDefaultTables) / sizeof(kDefaultTables[0]));",
+          L "// clang-format on"]) ++ ['\n']
+      = (defaultHeader ++ ['\n']) ++ unlines body := by
+    rw [joinNL_append_nl (by simp)]
+    simp [body, unlines_append, dIdxStart]
+  rw [e1, dropPrefix?_append, Option.bind_some]
+  have hnl : ∀ l ∈ body, '\n' ∉ l := by
+    intro l hl
+    simp only [body, List.mem_append, List.mem_flatMap, List.mem_cons, List.mem_map, List.not_mem_nil, or_false] at hl
+    rcases hl with ⟨e, he, hle⟩ | rfl | ⟨e, he, rfl⟩ | hl
+    · exact dTableLines_no_nl (h e he).1 (h e he).2.2.2 l hle
+    · rw [litIdxStart]; simp [L]
+    · exact dIndexLine_no_nl (h e he).1
+    · exact tailMem l (by simpa using hl)
+  rw [linesOf_unlines hnl]
+  simp only [body, List.append_assoc]
+  rw [← S0, foldl_dTables _ _ (fun e he => (h e he).2.2.2)]
+  simp only [List.nil_append, List.cons_append, List.foldl_cons, dStep_idxStart]
+  have emap : st.map (fun e => dIndexLine e.1) = (st.map (·.1)).map dIndexLine := by
+    rw [List.map_map]; rfl
+  rw [emap,
+    foldl_dIdx _ _ _ (by
+      intro k hk
+      obtain ⟨e, he, rfl⟩ := List.mem_map.1 hk
+      have := h e he
+      exact ⟨not_mem_rootOf this.2.2.1, not_mem_arrayOf this.2.1 (by decide) (by simp [L])⟩)]
+  simp only [List.foldl_cons, dStep_idxClose, List.nil_append]
+  rw [dStep_tail _ rfl (by simp [dTailLines]), dStep_tail _ rfl (by simp [dTailLines]),
+    dStep_tail _ rfl (by simp [dTailLines])]
+  simp only [List.foldl_nil, dFinish, List.map_map, Function.comp_def]
+  exact zipIdx_maps st
 
 end MjProof.SchemaGen
